@@ -81,6 +81,7 @@ let show_rres (kind : int) (r : rres) : string =
 
 let show_frame (f : frame_out) : string =
   match f with
+  | FO_Frag (off, len, more) -> Printf.sprintf "frag %s %s %d" (sz off) (sz len) (if more then 1 else 0)
   | FO_Aux (k, a) ->
       let k = iz k in
       Printf.sprintf "aux %s %s" (if k = 1 then "arp" else if k = 2 then "ns" else "reply") (addr_s a)
